@@ -11,6 +11,9 @@ package p2c
 //   VERIF_C14_MODE=conc   8 goroutines per picker; only the quiescent end state is logged
 //   VERIF_C14_MODE=streak one backend fails every call, completions 1-5 ms apart (n = 1 and n = 3),
 //                         long enough for the "unhealthy after a bounded number of completions" clause
+//   VERIF_C14_MODE=reorder two completions of one connection applied out of the order of the times
+//                         they read (the first is parked inside its timex.Now() call while the
+//                         clock advances and the second runs to the end), n = 1, 2, 3
 //   VERIF_C14_MODE=stats  long 1 kHz runs with one dead backend; measured shares and pick gaps
 //                         are written as JSON (the thresholds live in checks/c14.py)
 
@@ -69,11 +72,25 @@ type c14Picker struct {
 	sub    []*subConn               // index 1..n -> the picker's record
 	clock  *kit.Clock
 	base   time.Duration
+	// gate: when armed, the next reader of the clock is parked after it has taken its value
+	armed   atomic.Bool
+	parked  chan struct{}
+	release chan struct{}
+}
+
+func (cp *c14Picker) now() time.Duration {
+	v := cp.clock.Now()
+	if cp.armed.CompareAndSwap(true, false) {
+		cp.parked <- struct{}{}
+		<-cp.release
+	}
+	return v
 }
 
 func newC14Picker(n int, seed int64) (*c14Picker, error) {
-	cp := &c14Picker{n: n, byConn: map[balancer.SubConn]int{}, clock: kit.NewClock()}
-	timex.SetVerifClock(cp.clock.Now)
+	cp := &c14Picker{n: n, byConn: map[balancer.SubConn]int{}, clock: kit.NewClock(),
+		parked: make(chan struct{}), release: make(chan struct{})}
+	timex.SetVerifClock(cp.now)
 	cp.base = cp.clock.Now()
 	ready := map[balancer.SubConn]base.SubConnInfo{}
 	for i := 1; i <= n; i++ {
@@ -249,6 +266,127 @@ func c14StreakTrace(tr *kit.Tracer, id, n, want, maxPicks int, seed int64) error
 		lat := int64((cp.clock.Now() - start) / time.Microsecond)
 		res.Done(balancer.DoneInfo{Err: c14Err(code)})
 		tr.Emit(cp.proj(kit.M{"ev": "done", "c": c, "code": code, "lat": lat, "t": cp.ms()}))
+	}
+	return nil
+}
+
+// reorder trace: a few random operations, then two outstanding calls of one connection complete
+// "crosswise": A decrements in-flight and reads the clock (tA), is parked; the clock advances by
+// 1-30 s; B completes entirely (reads tB > tA, swaps the connection's last-completion time);
+// A continues with its older time.  Logged as dbegin(A, tA), done(B, tB), dend(A, tA).
+func c14ReorderTrace(tr *kit.Tracer, id, n int, seed int64) error {
+	rng := rand.New(rand.NewSource(seed))
+	cp, err := newC14Picker(n, seed^0x5eed)
+	if err != nil {
+		return err
+	}
+	tr.Emit(kit.M{"ev": "reset", "n": n, "id": id, "profile": "reorder"})
+	var calls []c14Call
+	pick := func() (bool, error) {
+		start := cp.clock.Now()
+		res, err := cp.picker.Pick(balancer.PickInfo{FullMethodName: "/verif/C14", Ctx: context.Background()})
+		if err != nil {
+			return false, fmt.Errorf("Pick with %d ready connections failed: %v", n, err)
+		}
+		c := cp.byConn[res.SubConn]
+		tr.Emit(cp.proj(kit.M{"ev": "pick", "c": c, "t": cp.ms()}))
+		if c == 0 || res.Done == nil {
+			return false, nil
+		}
+		calls = append(calls, c14Call{c: c, start: start, done: res.Done})
+		return true, nil
+	}
+	code := func() string {
+		if rng.Intn(2) == 0 {
+			return []string{"DeadlineExceeded", "Internal", "Unavailable", "DataLoss", "Unimplemented"}[rng.Intn(5)]
+		}
+		return []string{"nil", "plain", "OK", "Canceled", "NotFound", "Aborted"}[rng.Intn(6)]
+	}
+	finish := func(i int) {
+		call := calls[i]
+		calls = append(calls[:i], calls[i+1:]...)
+		cd := code()
+		lat := int64((cp.clock.Now() - call.start) / time.Microsecond)
+		call.done(balancer.DoneInfo{Err: c14Err(cd)})
+		tr.Emit(cp.proj(kit.M{"ev": "done", "c": call.c, "code": cd, "lat": lat, "t": cp.ms()}))
+	}
+	for round := 0; round < 3; round++ {
+		// warm-up: vary scores and estimates
+		for k, m := 0, 2+rng.Intn(8); k < m; k++ {
+			if adv := c14PickAdv(rng); adv > 0 && cp.ms() < 10*60*1000 {
+				cp.clock.Advance(time.Duration(adv) * time.Millisecond)
+			}
+			if len(calls) == 0 || (len(calls) < 5 && rng.Intn(2) == 0) {
+				if ok, err := pick(); err != nil || !ok {
+					return err
+				}
+			} else {
+				finish(rng.Intn(len(calls)))
+			}
+		}
+		// two outstanding calls on one connection
+		a, b := -1, -1
+		for tries := 0; a < 0 && tries < 40; tries++ {
+			for i := range calls {
+				for j := i + 1; j < len(calls); j++ {
+					if calls[i].c == calls[j].c && a < 0 {
+						a, b = i, j
+					}
+				}
+			}
+			if a < 0 {
+				cp.clock.Advance(time.Duration(1+rng.Intn(50)) * time.Millisecond)
+				if ok, err := pick(); err != nil || !ok {
+					return err
+				}
+			}
+		}
+		if a < 0 {
+			return nil
+		}
+		if rng.Intn(2) == 0 {
+			a, b = b, a
+		}
+		ca, cb := calls[a], calls[b]
+		rest := calls[:0:0]
+		for i, c := range calls {
+			if i != a && i != b {
+				rest = append(rest, c)
+			}
+		}
+		calls = rest
+		cp.clock.Advance(time.Duration(1+rng.Intn(2000)) * time.Millisecond)
+		codeA, codeB := code(), code()
+		tA := cp.clock.Now()
+		fin := make(chan struct{})
+		cp.armed.Store(true)
+		go func() {
+			ca.done(balancer.DoneInfo{Err: c14Err(codeA)})
+			close(fin)
+		}()
+		select {
+		case <-cp.parked:
+		case <-time.After(10 * time.Second):
+			return errors.New("completion A did not read the clock (gate not reached)")
+		}
+		tr.Emit(cp.proj(kit.M{"ev": "dbegin", "c": ca.c, "t": cp.ms()}))
+		delay := []int{1000, 1500, 2000, 3000, 5000, 10000, 30000}[rng.Intn(7)]
+		cp.clock.Advance(time.Duration(delay) * time.Millisecond)
+		latB := int64((cp.clock.Now() - cb.start) / time.Microsecond)
+		cb.done(balancer.DoneInfo{Err: c14Err(codeB)})
+		tr.Emit(cp.proj(kit.M{"ev": "done", "c": cb.c, "code": codeB, "lat": latB, "t": cp.ms()}))
+		cp.release <- struct{}{}
+		select {
+		case <-fin:
+		case <-time.After(10 * time.Second):
+			return errors.New("completion A did not finish after its release")
+		}
+		tr.Emit(cp.proj(kit.M{"ev": "dend", "c": ca.c, "code": codeA, "lat": int64((tA - ca.start) / time.Microsecond),
+			"t": int64((tA - cp.base) / time.Millisecond)}))
+	}
+	for len(calls) > 0 {
+		cp.clock.Advance(time.Duration(1+rng.Intn(300)) * time.Millisecond)
+		finish(0)
 	}
 	return nil
 }
@@ -446,6 +584,21 @@ func TestVerifC14(t *testing.T) {
 			}
 			if err := c14StreakTrace(tr, id, n, want, want*7/2, seed*1000003+int64(id)); err != nil {
 				t.Fatalf("streak trace %d: %v", id, err)
+			}
+		}
+	case "reorder":
+		tr, err := kit.NewTracer(out)
+		if err != nil {
+			t.Fatal(err)
+		}
+		defer tr.Close()
+		traces := kit.EnvInt("VERIF_C14_TRACES", 150)
+		for id := 0; id < traces; id++ {
+			if only >= 0 && id != only {
+				continue
+			}
+			if err := c14ReorderTrace(tr, id, []int{1, 2, 3}[id%3], seed*1000003+int64(id)); err != nil {
+				t.Fatalf("reorder trace %d: %v", id, err)
 			}
 		}
 	case "stats":
